@@ -1699,7 +1699,7 @@ decompress(struct archive_read *a, struct _7zip *zip,
 			if (flush_bytes)
 				flush_bytes--;
 		} while (zip->ppstream.avail_out &&
-			(zip->ppstream.avail_in || flush_bytes));
+			(zip->ppstream.avail_in > 0 || flush_bytes));
 
 		t_avail_in = (size_t)zip->ppstream.avail_in;
 		t_avail_out = (size_t)zip->ppstream.avail_out;
